@@ -647,9 +647,9 @@ PROPS = {
         "falsifier": ["fswatch"],
         "case_prefixes": ["c13_"],
         "counts": counts_for("C13"),
-        "explanation": "Effect precondition: every mutating function of file_ext (write_file, create_file, delete_file, read_or_create_and_write, create_directory, delete_directory, create_symlink, copy_file) is declared with `requires false`; Verus proves that none of the functions under contract (all StaticResourceController functions, Range::get_content_range_list) can call one. Adding such a call to any of them fails a named obligation. Functions on the request path that are NOT under contract (other controllers, Log) are not covered.",
+        "explanation": "Effect precondition: every mutating function of file_ext (write_file, create_file, delete_file, read_or_create_and_write, create_directory, delete_directory, create_symlink, copy_file) and the std::fs mutators write, remove_file, remove_dir, remove_dir_all, create_dir, create_dir_all, rename, copy and File::create (shims/core.rs) are declared with `requires false`; Verus proves that none of the functions under contract in the 13 units on the request path (every controller through both entry points, Server::process / process_request, App, the range pipeline, request parser, serialisers, CORS, header list, media types, Log) can call one. Adding such a call to any of them fails a named obligation `precondition false@<callee>`. Code on the request path that is NOT under contract (ThreadPool workers, TcpListener accept loop in Server::run, the url-build-parse dependency) is not covered; level is `other`, not proof of the whole-program property.",
         "samples": ["FileExt::write_file / precondition / false  (no call site exists in any function under contract)"],
-        "assumptions": ["std::fs / OpenOptions mutators are not declared at all in the shims: a call to one is an unsupported construct (exit 2), not a silent pass"],
+        "assumptions": ["std::fs::OpenOptions and every other std API that can write to the file system and is not one of the nine std::fs mutators declared `requires false` in shims/core.rs has no declaration in the shims at all: a call to one is an unsupported construct (exit 2, undecided), not a silent pass", "the `requires false` declarations carry no postcondition and are never assumed anywhere: they can only fail an obligation, never discharge one (no function under contract reaches them on the unchanged tree)"],
     },
     "C09": {
         "units": ["static", "response_gen", "cors", "controllers", "app", "forms"],
